@@ -914,6 +914,11 @@ def run(prop, seed, budget, ctx):
         failures += gf; distinct |= gd; an += gn
         for k_, v_ in gh.items(): hist[k_] += v_
         for f in gf: hist[("P:" + f["why"][0].split(":")[0]) if f["kind"] == "P" else "K"] += 1
+        import corners7
+        gf, gn, gd, gh = corners7.run_part("C01", seed, budget)
+        failures += gf; distinct |= gd; an += gn
+        for k_, v_ in gh.items(): hist[k_] += v_
+        for f in gf: hist["P:" + f["why"][0].split(":")[0]] += 1
         import objmodel
         gf, gn, gd, gh = objmodel.run_part("C01", seed, budget)
         failures += gf; distinct |= gd; an += gn
